@@ -1,5 +1,6 @@
 import JunoModel.Common.Proto
 import JunoModel.C17.Model
+import JunoModel.C17.ModelGlue
 /-! Line-protocol driver for the C17 model (`lake build c17drv`). All numbers are hex.
 
 * `new <guard 0|1> none | new <guard> <l2> <hash> <root>`  fresh client, stored head as given → `ok`
@@ -7,9 +8,21 @@ import JunoModel.C17.Model
 * `tick <fin>`                                            poll + `setL1Head` → `head=<h> note=<h>`
 * `fwd <blockNumber> <blockHash> <globalRoot> <l1> <removed>`  raw L1 log through the geth layer
                                                           → `su <l2> <hash> <root> <l1> <removed>`
-* `life <oneshot 0|1> <chain-id answers e|o|m… or -> <latest|-> <fin1|-> <chunk> <failAt|none> <fin2>`
-    executes `startUp` / `runLife` on the stored head given to `new`, the `hist` lines and every
-    event-loop input received since `new`                 → `gate=proceed|fatal|cancelled head=<h>`
+* `life <oneshot 0|1> <chain-id answers e|o|m… or -> <latest|-> <fin1|-> <chunk|-> <failAt|none> <fin2>`
+    executes `startUp` / `runLife` / `lifeNotes` / `lifeErr` on the stored head given to `new`, the
+    `hist` lines and every event-loop input received since `new`; chunk `-` = no `WithCatchUpChunkSize`
+    option (`newClientChunk {}`), otherwise `newClientChunk {chunk := some c}`
+        → `gate=proceed|fatal|cancelled head=<h> notes=<h,h,…|-> err=none|mismatch|provider`
+* `poll <x|fin> <x|fin> …`   `pollStep`: `setL1Head` behind `finalisedHeight`'s retry loop, one answer per
+    `FinalisedHeight` attempt (`x` = error — not a hex digit; no answer left = context ended)
+        → `calls=<n> head=<h> note=<h>`
+* `sub <0|1> …`             `subscribeLoop` on the outcomes of the `WatchStateUpdate` attempts → `attempt=<k|none>`
+* `pipenew` → `ok`; `pipe <tok> …` runs `Pipe.step` on the hand-off chain of a live subscription; tokens:
+    `a<n>` the node pushes the next n raw logs (from the `raw` lines), `f<n>`/`t<n>`/`p<n>`/`c<n>` n times
+    feed/take/put/consume, `r<n>` n rounds of [feed, take, put] (forwarder side runs, client stalled),
+    `d<n>` n rounds of [consume, put, take, feed] → `out=<n> sink=<n> hand=<0|1> ch=<n> up=<n>`;
+    `pipeout` → what the client has received, `su …|su …` or `-`
+* `verified <n>`            `isL1Verified n` on the stored head → `0|1`
 * `catchupfault <latest> <fin1> <chunk> <failAt|none> <fin2> <r|w>`  catch-up whose final `setL1Head`
     hits a failing database                              → `res=<r> q=… head=<h> feed=<h>`
 * `tickfault <fin> <r|w>`   `setL1Head` with a failing stored-head read / write
@@ -20,7 +33,7 @@ import JunoModel.C17.Model
 * `head`                                                   → `head=<h>` (stored head, no transition)
 * `suberr` | `resub <0|1>` | `finerr`                     → `ok` (identity transitions)
 * `hist <l2> <hash> <root> <l1> <removed>` / `histclear`  provider log history for catch-up → `ok`
-* `catchup <latest> <fin1> <chunk> <failAt|none> <fin2>`  → `res=<r> q=<from-to,…|-> head=<h> note=<h>`
+* `catchup <latest> <fin1> <chunk|-> <failAt|none> <fin2>`  → `res=<r> q=<from-to,…|-> head=<h> note=<h>`
   where `<h>` is `none` or `l2:hash:root`.
 -/
 open Juno.Proto Juno.C17
@@ -33,6 +46,7 @@ structure DState where
   trace : List Ev := []           -- every event-loop input of this life, newest first
   raws : List RawLog := []        -- raw L1 logs pushed through the geth layer, newest first
   sub : Subscriber := {}          -- one subscriber of the L1-head feed
+  pipe : Pipe := {}               -- the hand-off chain of a live subscription
 
 def fmtHead : Option Head → String
   | none => "none"
@@ -52,6 +66,62 @@ def su? (a b c d e : String) : Option SU := do
 def fmtQueries (qs : List (Nat × Nat)) : String :=
   if qs.isEmpty then "-" else
   ",".intercalate (qs.map (fun q => natToHex q.1 ++ "-" ++ natToHex q.2))
+
+/-- `-` = the option was not given to `NewClient`. -/
+def chunk? (x : String) : Option Nat :=
+  if x == "-" then some (newClientChunk {}) else (hexToNat? x).map fun c => newClientChunk { chunk := some c }
+
+def fmtHeads (l : List Head) : String :=
+  if l.isEmpty then "-" else ",".intercalate (l.map fun h => fmtHead (some h))
+
+def fmtErr : ErrClass → String
+  | .none => "none"
+  | .mismatch => "mismatch"
+  | .provider => "provider"
+
+def answers? : List String → Option (List (Option Nat))
+  | [] => some []
+  | x :: t => do
+    let r ← answers? t
+    if x == "x" then pure (none :: r) else do
+      let f ← hexToNat? x
+      pure (some f :: r)
+
+def bools? : List String → Option (List Bool)
+  | [] => some []
+  | x :: t => do
+    let r ← bools? t
+    let b ← bool? x
+    pure (b :: r)
+
+def fmtSU (u : SU) : String :=
+  "su " ++ natToHex u.l2 ++ " " ++ natToHex u.hash ++ " " ++ natToHex u.root ++ " " ++
+    natToHex u.l1 ++ " " ++ (if u.removed then "1" else "0")
+
+/-- One token of a `pipe` schedule: the ops it stands for and the raw logs left. -/
+def pipeTok (tok : String) (raws : List RawLog) : Option (List PipeOp × List RawLog) :=
+  match tok.toList with
+  | c :: ds =>
+    match (String.mk ds).toNat? with
+    | none => none
+    | some n =>
+      if c == 'a' then
+        if n ≤ raws.length then some ((raws.take n).map PipeOp.arrive, raws.drop n) else none
+      else if c == 'f' then some (List.replicate n .feed, raws)
+      else if c == 't' then some (List.replicate n .take, raws)
+      else if c == 'p' then some (List.replicate n .put, raws)
+      else if c == 'c' then some (List.replicate n .consume, raws)
+      else if c == 'r' then some ((List.replicate n [PipeOp.feed, .take, .put]).flatten, raws)
+      else if c == 'd' then some ((List.replicate n [PipeOp.consume, .put, .take, .feed]).flatten, raws)
+      else none
+  | [] => none
+
+def pipeToks : List String → List RawLog → Option (List PipeOp × List RawLog)
+  | [], raws => some ([], raws)
+  | t :: ts, raws => do
+    let (o1, r1) ← pipeTok t raws
+    let (o2, r2) ← pipeToks ts r1
+    pure (o1 ++ o2, r2)
 
 def fmtRes : CatchUpResult → String
   | .complete => "complete"
@@ -95,15 +165,51 @@ def dstep (s : DState) (line : String) : DState × String :=
         else if c == 'm' then pure (.mismatch :: t) else none) (some [])
     let optNat? (x : String) : Option (Option Nat) :=
       if x == "-" || x == "none" then some none else (hexToNat? x).map some
-    match bool? os, ans?, optNat? la, optNat? f1, hexToNat? ch, optNat? fa, hexToNat? f2 with
+    match bool? os, ans?, optNat? la, optNat? f1, chunk? ch, optNat? fa, hexToNat? f2 with
     | some os, some ans, some la, some f1, some ch, some fa, some f2 =>
       let cfg : Startup := ⟨ans, la, f1, s.hist, ch, fa, f2⟩
       let s0 := State.init s.init
       let su := startUp s.guard s0 cfg os
       let g := match su.2 with | .proceed => "proceed" | .fatal => "fatal" | .cancelled => "cancelled"
       let final := if os then su.1 else runLife s.guard s0 cfg s.trace.reverse
-      (s, "gate=" ++ g ++ " head=" ++ fmtHead final.head)
+      (s, "gate=" ++ g ++ " head=" ++ fmtHead final.head ++
+        " notes=" ++ fmtHeads (lifeNotes s.guard s0 cfg os s.trace.reverse) ++
+        " err=" ++ fmtErr (lifeErr cfg os))
     | _, _, _, _, _, _, _ => (s, "bad-op")
+  | "poll" :: xs =>
+    match answers? xs with
+    | some ans =>
+      let r := pollStep s.guard s.st ans
+      let l := finalisedHeightLoop ans
+      let tr := (match l.1 with | some f => [Ev.tick f] | none => []) ++
+        List.replicate (match l.1 with | some _ => l.2 - 1 | none => l.2) Ev.finErr ++ s.trace
+      ({ s with st := r.1, trace := tr },
+        "calls=" ++ toString l.2 ++ " head=" ++ fmtHead r.1.head ++ " note=" ++ fmtHead r.2)
+    | none => (s, "bad-op")
+  | "sub" :: xs =>
+    match bools? xs with
+    | some bs =>
+      let k := subscribeLoop bs
+      let n := match k with | some k => k | none => bs.length
+      let tr := (match k with | some _ => [Ev.resub true] | none => []) ++ List.replicate n (Ev.resub false) ++ s.trace
+      ({ s with trace := tr }, "attempt=" ++ (match k with | some k => toString k | none => "none"))
+    | none => (s, "bad-op")
+  | ["pipenew"] => ({ s with pipe := {} }, "ok")
+  | "pipe" :: toks =>
+    match pipeToks toks s.raws.reverse with
+    | some (ops, rest) =>
+      let p := s.pipe.run ops
+      ({ s with pipe := p, raws := rest.reverse },
+        "out=" ++ toString p.out.length ++ " sink=" ++ toString p.sink.length ++
+        " hand=" ++ (if p.hand.isSome then "1" else "0") ++ " ch=" ++ toString p.ch.length ++
+        " up=" ++ toString p.up.length)
+    | none => (s, "bad-op")
+  | ["pipeout"] =>
+    (s, if s.pipe.out.isEmpty then "-" else "|".intercalate (s.pipe.out.map fmtSU))
+  | ["verified", n] =>
+    match hexToNat? n with
+    | some n => (s, if isL1Verified n s.st.head then "1" else "0")
+    | none => (s, "bad-op")
   | ["head"] => (s, "head=" ++ fmtHead s.st.head)
   | ["suberr"] => ({ s with st := step s.guard s.st .subErr, trace := .subErr :: s.trace }, "ok")
   | ["finerr"] => ({ s with st := step s.guard s.st .finErr, trace := .finErr :: s.trace }, "ok")
@@ -139,7 +245,7 @@ def dstep (s : DState) (line : String) : DState × String :=
   | ["catchupfault", la, f1, ch, fa, f2, k] =>
     let fa? : Option (Option Nat) := if fa == "none" then some none else (hexToNat? fa).map some
     let k? : Option DbFault := if k == "r" then some .readErr else if k == "w" then some .writeErr else none
-    match hexToNat? la, hexToNat? f1, hexToNat? ch, fa?, hexToNat? f2, k? with
+    match hexToNat? la, hexToNat? f1, chunk? ch, fa?, hexToNat? f2, k? with
     | some la, some f1, some ch, some fa, some f2, some k =>
       let r := catchUpFault s.guard s.st s.hist la f1 ch fa f2 k
       ({ s with st := r.1 },
@@ -153,7 +259,7 @@ def dstep (s : DState) (line : String) : DState × String :=
   | ["histclear"] => ({ s with hist := [] }, "ok")
   | ["catchup", la, f1, ch, fa, f2] =>
     let fa? : Option (Option Nat) := if fa == "none" then some none else (hexToNat? fa).map some
-    match hexToNat? la, hexToNat? f1, hexToNat? ch, fa?, hexToNat? f2 with
+    match hexToNat? la, hexToNat? f1, chunk? ch, fa?, hexToNat? f2 with
     | some la, some f1, some ch, some fa, some f2 =>
       let r := catchUp s.guard s.st s.hist la f1 ch fa f2
       ({ s with st := r.1 },
